@@ -404,7 +404,10 @@ class Runner:
             if n in st.env:
                 old = st.env[n]
                 nv = Val(fresh_v(n), old.ty if old.ty not in ('list', 'dict', 'tuple', 'set', 'seq', None) and not isinstance(old.ty, ClassInfo) else old.ty)
-                if old.ty is not None and isinstance(old.ty, str):
+                if old.ty == 'none':
+                    # a local that starts as None usually becomes something else: no automatic type invariant
+                    nv = Val(nv.t, None)
+                elif old.ty is not None and isinstance(old.ty, str):
                     if old.ty == 'char':
                         nv = Val(nv.t, 'str')
                     p = ex.type_pred(nv.ty, nv.t, st) if nv.ty != 'seq' else None
